@@ -450,6 +450,7 @@ func checkC10(c *Ctx) error {
 	c.Set("fault_classes", len(cases))
 	c.Set("flag_sets", len(flagSets))
 	c10Stdout(c)
+	c10Procfs(c)
 	return c10Strace(c)
 }
 
@@ -507,6 +508,42 @@ func c10Stdout(c *Ctx) {
 						c.Violate(sig+"failure-changed-output", fmt.Sprintf("flags %v, stdout %s, -o %s before: exit %d, but the -o path changed: before=%+v after=%+v", flags, stdout, pre, run.Res.Exit, run.Before, run.After), files)
 					}
 				}
+			}
+		}
+	}
+}
+
+// c10Procfs: inputs whose stat size is not their length (procfs files report size 0). The bytes are what they are: the run over
+// the procfs path must end like the run over a regular file holding the same bytes, and a failing one must not create `-o`
+// (round 13, S253).
+func c10Procfs(c *Ctx) {
+	w := c.W
+	for _, pf := range []string{"/proc/version", "/proc/filesystems", "/proc/cmdline", "/proc/sys/kernel/ostype"} {
+		data, err := os.ReadFile(pf)
+		st, err2 := os.Stat(pf)
+		if err != nil || err2 != nil || len(data) == 0 || st.Size() != 0 {
+			continue
+		}
+		for _, flags := range [][]string{{}, {"--quiet"}, {"--stub"}} {
+			dir := w.TempDir("c10p")
+			_ = work.WriteFile(filepath.Join(dir, "copy.yaml"), data)
+			out1, out2 := filepath.Join(dir, "out1.go"), filepath.Join(dir, "out2.go")
+			a1 := append([]string{"build", "-i", "copy.yaml", "-o", "out1.go"}, flags...)
+			a2 := append([]string{"build", "-i", pf, "-o", "out2.go"}, flags...)
+			ref := cli.Do(w, "", nil, dir, out1, a1...)
+			run := cli.Do(w, "", nil, dir, out2, a2...)
+			c.Add("runs_over_procfs_inputs", 1)
+			c.Eval(fmt.Sprintf("procfs|%s|%v", pf, flags), true)
+			files := map[string]string{"input/copy.yaml": string(data), "args.txt": strings.Join(a2, " "), "stdout.txt": run.Res.Stdout, "stdout-regular-copy.txt": ref.Res.Stdout}
+			if (ref.Res.Exit == 0) != (run.Res.Exit == 0) {
+				c.Violate("size-0-input:verdict-differs-from-regular-copy", fmt.Sprintf("%s %v: exit %d, over a regular file with the same %d bytes: exit %d", pf, flags, run.Res.Exit, len(data), ref.Res.Exit), files)
+				continue
+			}
+			if run.Res.Exit != 0 && run.Before != run.After {
+				c.Violate("size-0-input:failure-changed-output", fmt.Sprintf("%s %v: exit %d but the -o path changed", pf, flags, run.Res.Exit), files)
+			}
+			for _, b := range run.Contract() {
+				c.Violate("size-0-input:"+sigWords(b), fmt.Sprintf("%s %v: %s", pf, flags, b), files)
 			}
 		}
 	}
